@@ -529,6 +529,30 @@ theorem C15_walk_prefetch_threshold (ppOf : Int → Nat → Nat) (script : List 
   exact ⟨hi.1 h, hi.2 (hi.1 h)⟩
 
 open Paging.Hist Paging.Walk in
+/-- **Iter.Scan launches the prefetch as soon as the threshold is passed** (the converse of
+    `C15_walk_prefetch_threshold`; Query.Prefetch's documentation: "the next page will be requested
+    automatically"). For every walk through Iter.Scan / MapScan with observers and any scheduling (no Scanner
+    strides — a Scanner never prefetches —, no probe disarming it): whenever the consumer has taken more than
+    `next.pos` rows of a page that has a next page, the asynchronous prefetch of that next page HAS been
+    launched. Together with the threshold theorem: launched if and only if past the threshold. -/
+theorem C15_walk_prefetch_launched (ppOf : Int → Nat → Nat) (script : List Reply) (q : Qry) (steps : List Walk.Step)
+    (hs : ∀ s ∈ steps, scanOnly s) :
+    let w := Walk.exec ppOf (Walk.start ppOf script q) steps
+    ∀ n, w.it.cur.err = none → w.it.cur.next = some n → n.pos < w.it.cur.pos → w.async = .launched := by
+  intro w
+  exact (exec_cinv ppOf steps _ (start_cinv ppOf script q) hs).2
+
+/-- non-vacuity of both directions (prefetch 0.5 of a 4-row page: threshold 2): after 2 rows not launched, after 3 launched -/
+example :
+    let q : Qry := { ident := 1, prepared := false, skipMeta := false, pageSize := 0, pageState := [], disableAutoPage := false }
+    let script : List Reply := [.page [1, 2, 3, 4] (some [7]), .page [5] none]
+    let ppOf : Int → Nat → Nat := fun _ n => n / 2
+    (Walk.exec ppOf (Walk.start ppOf script q) [.scan .scan 2]).async = .idle ∧
+    (Walk.exec ppOf (Walk.start ppOf script q) [.scan .scan 2, .observe, .scan .scan 1]).async = .launched ∧
+    (Walk.exec ppOf (Walk.start ppOf script q) [.scan .scanner 4]).async = .idle := by
+  decide
+
+open Paging.Hist Paging.Walk in
 /-- **A stride that ends with `false` has ended the iteration, with everything delivered**: if the last call
     of a stride returned false, the rows handed over since Iter() are the whole specification result, the
     error is the specification's, and every request of the full iteration has been sent (no more, no fewer). -/
